@@ -98,7 +98,7 @@ structure TaskP where
   src  : P
   dst  : Option P
   sync : Bool
-deriving BEq, Repr
+deriving BEq, DecidableEq, Repr
 
 def endsWithSlash (b : Bytes) : Bool := b.getLast? == some slashB
 
@@ -181,6 +181,19 @@ def kindOf (fs : Fs) (p : P) : Kind :=
   else if b == [dotB] || b == [slashB] || fs.dirs.contains b then .dir
   else .missing
 
+/-- the `WalkDir` callback of `createTasks` over the regular files `inp/r`, in walk order -/
+def walkTasks (pm : Nat → Bytes → Bool) (inv : Inv) (mimetype output : Bytes) (root inp : P) :
+    List (List Bytes) → Option (List TaskP)
+  | [] => some []
+  | r :: rest =>
+    let p : P := ⟨inp.abs, inp.cs ++ r⟩
+    let valid := fileMatches pm inv mimetype (render p)
+    if valid || inv.sync then
+      match newTask root p output (!valid) with
+      | none => none
+      | some t => (walkTasks pm inv mimetype output root inp rest).map (t :: ·)
+    else walkTasks pm inv mimetype output root inp rest
+
 /-- `createTasks` for one (normalised) input; `none` = error -/
 def tasksOfInput (pm : Nat → Bytes → Bool) (fs : Fs) (inv : Inv) (mimetype output input : Bytes) :
     Option (List TaskP) :=
@@ -201,17 +214,7 @@ def tasksOfInput (pm : Nat → Bytes → Bool) (fs : Fs) (inv : Inv) (mimetype o
     -- the root entry itself is subject to the hidden check, unless it is `.` or `..`
     let rootName := baseRaw (render inp)
     if rootName != [dotB] && rootName != dotdot && !inv.hidden && isHiddenName rootName then some [] else
-    (walk fs inv.hidden inp).foldl (fun acc r =>
-      match acc with
-      | none => none
-      | some ts =>
-        let p : P := ⟨inp.abs, inp.cs ++ r⟩
-        let valid := fileMatches pm inv mimetype (render p)
-        if valid || inv.sync then
-          match newTask root p output (!valid) with
-          | none => none
-          | some t => some (ts ++ [t])
-        else some ts) (some [])
+    walkTasks pm inv mimetype output root inp (walk fs inv.hidden inp)
 
 /-- the plan of an invocation -/
 structure Plan where
@@ -222,7 +225,7 @@ structure Plan where
   outDir : Option Bytes := none
   mimetype : Bytes := []
   stdinTask : Bool := false
-deriving Repr
+deriving DecidableEq, Repr
 
 /-- `inputs[i] = Clean(input)` plus a trailing `/` when the argument had one -/
 def normInput (input : Bytes) : Bytes :=
@@ -381,5 +384,14 @@ def readAll : List (Nat × Nat) → CR → Bytes → Option Bytes
   | (n, k) :: rest, s, acc =>
     let (c, eof, s') := s.read n k
     if eof then some (acc ++ c) else readAll rest s' (acc ++ c)
+
+/-- the chunks of the successive `Read` calls and whether EOF was reported (for the correspondence run) -/
+def readChunks : List (Nat × Nat) → CR → List Bytes × Bool
+  | [], _ => ([], false)
+  | (n, k) :: rest, s =>
+    let (c, eof, s') := s.read n k
+    if eof then ([c], true) else
+    let (cs, e) := readChunks rest s'
+    (c :: cs, e)
 
 end Verif.Model.Cli
